@@ -527,7 +527,8 @@ def run(chk):
              ("sim_both_n2", dict(cfg=cfg(2, 2, 4, "RatesFull", same=True), simulate="num=%d" % (30 * k), depth=40)),
              ("sim_bad", dict(cfg=cfg(2, 3, 2, "RatesSmall", bad=True, focus=False), simulate="num=%d" % (40 * k), depth=40)),
              ("sim_zero", dict(cfg=cfg(3, 2, 4, "RatesZero"), simulate="num=%d" % (15 * k), depth=40)),
-             ("sim_meas", dict(cfg=cfg(2, 2, 4, "RatesFull", meas=True), simulate="num=%d" % (30 * k), depth=40))]
+             ("sim_meas", dict(cfg=cfg(2, 2, 4, "RatesFull", meas=True), simulate="num=%d" % (30 * k), depth=40)),
+             ("sim_meas2", dict(cfg=cfg(2, 2, 3, "RatesSmall", meas=True, focus=False), simulate="num=%d" % (40 * k), depth=40))]
     if not quick:
         plan.append(("bfs_n2", dict(cfg=cfg(2, 1, 2, "RatesSmall", bad=False, focus=True), workers=4)))
     for i, (name, kw) in enumerate(plan):
